@@ -221,6 +221,17 @@ def run(eng: Engine, ck: Check):
         gs = [(unparse(e), pol) for e, pol, _ in eng.guards_at(wj, x)]
         ok = any('CLOSED' in g and 'state' in g and p for g, p in gs)
         ck.ob('R-C16-RECONNECT', wj, x, 'the watchdog reconnects only a CLOSED server connection', ok, f'{gs}', construct='watchdog reconnects closed')
+    # level-triggered: whether to reconnect is decided from the connection's CURRENT state (and settings), never from what the watchdog
+    # remembers from earlier ticks -- a failed attempt leaves the connection CLOSED again without any new edge
+    ctx_params = [p for p in wj.params if p != 'self']
+    own_writes = {t.attr for n in walk_local(wj.node) if isinstance(n, (ast.Assign, ast.AugAssign, ast.AnnAssign))
+                  for t in (n.targets if isinstance(n, ast.Assign) else [n.target]) if isinstance(t, ast.Attribute)}
+    for x in calls_on(wj.node, 'connect_server'):
+        mem = [unparse(e) for e, pol, _ in expanded_guards(eng, wj, x)
+               if any(mentions_name(e, p) for p in ctx_params) or any(mentions_attr(e, a) for a in own_writes)]
+        ck.ob('R-C16-RECONNECT', wj, x, 'the watchdog is level-triggered: every tick that finds the server connection CLOSED attempts a reconnect; the decision does '
+              'not depend on state remembered from earlier ticks (after a failed attempt there is no new edge to wait for)', not mem,
+              f'reconnect is conditional on remembered state: {mem}', construct='watchdog level-triggered')
     ck.ob('R-C16-RECONNECT', wj, wj.node, 'a successful reconnect is announced (ServerReconnectedEvent)', 'ServerReconnectedEvent' in unparse(wj.node), '', construct='reconnect event')
     osr = eng.func(CLIENT, 'SoulSeekClient._on_server_reconnected')
     for x in calls_on(osr.node, 'login'):
@@ -326,9 +337,33 @@ def tasks_rule(eng: Engine, ck: Check):
                     out.append((f, c))
         return out
 
+    def yields_slot(e: ast.AST, fnode, slot: str, depth: int = 0) -> bool:
+        """Does expression `e` (evaluated in function node fnode) denote the slot or a collection containing it?"""
+        if mentions_attr(e, slot):
+            return True
+        if depth > 3:
+            return False
+        if isinstance(e, ast.Name):
+            for n in walk_local(fnode):
+                if isinstance(n, ast.Assign) and isinstance(n.targets[0], ast.Name) and n.targets[0].id == e.id and yields_slot(n.value, fnode, slot, depth + 1):
+                    return True
+                if isinstance(n, ast.Call) and call_name(n) in ('append', 'extend', 'add') and isinstance(n.func.value, ast.Name) and n.func.value.id == e.id \
+                        and n.args and yields_slot(n.args[0], fnode, slot, depth + 1):
+                    return True
+            return False
+        for x in ast.walk(e):
+            if isinstance(x, ast.Call) and isinstance(x.func, ast.Attribute):
+                fi = getattr(fnode, '_info', None)
+                for cal in (eng.res.callees(x, fi) if fi is not None else []):
+                    if any(isinstance(r, ast.Return) and r.value is not None and yields_slot(r.value, cal.node, slot, depth + 1) for r in walk_local(cal.node)):
+                        return True
+        return False
+
     def slot_bound(name: str, at: ast.AST, slot: str) -> bool:
+        fnode = next((a for a in ancestors(at) if isinstance(a, FUNC_NODES)), None)
         for a in ancestors(at):
-            if isinstance(a, (ast.For,)) and isinstance(a.target, ast.Name) and a.target.id == name and mentions_attr(a.iter, slot):
+            if isinstance(a, (ast.For,)) and isinstance(a.target, ast.Name) and a.target.id == name and \
+                    (mentions_attr(a.iter, slot) or (fnode is not None and yields_slot(a.iter, fnode, slot))):
                 return True
             if isinstance(a, ast.If) and isinstance(a.test, ast.NamedExpr) and a.test.target.id == name and mentions_attr(a.test.value, slot):
                 return True
@@ -375,6 +410,12 @@ def tasks_rule(eng: Engine, ck: Check):
                 owned(tgt.attr, f'{f.qualname} `{unparse(c)[:40]}`', f, c, exceptions.get(tgt.attr))
                 continue
             if isinstance(tgt, ast.Name):
+                # local that is stored into an attribute slot right away?
+                moved = [n for n in walk_local(f.node) if isinstance(n, ast.Assign) and isinstance(n.value, ast.Name) and n.value.id == tgt.id
+                         and isinstance(n.targets[0], ast.Attribute)]
+                if moved:
+                    owned(moved[0].targets[0].attr, f'{f.qualname} `{unparse(c)[:40]}`', f, c, exceptions.get(moved[0].targets[0].attr))
+                    continue
                 # local: appended to a list attribute? returned? cancelled by the parent on all exits (C11)?
                 apps = [a for a in calls_in(f.node) if call_name(a) == 'append' and a.args and unparse(a.args[0]) == tgt.id and
                         isinstance(a.func.value, ast.Attribute)]
